@@ -620,7 +620,7 @@ Adv == Pop \o <<[Top EXCEPT !.i = Top.i + 1]>>       \* the stack with the curre
 Stop(v, hz) == m' = [m EXCEPT !.out = v, !.hz = m.hz \cup hz, !.steps = m.steps + 1]
 Budget == m.steps < MaxSteps
 TooBig(v) == (v.t = "int" /\ Len(v.m) > MaxLimbs) \/ v.t = "tup"       \* beyond the model's bound: the case is left undecided
-OverBudget == Live /\ ~Budget /\ Stop(Und, {})
+OverBudget == Live /\ ~Budget /\ m' = [m EXCEPT !.out = Und]
 
 StepAsg == AtStmt("asg") /\ Budget /\
     LET x == Eval(Cur.e, m.env, T, "f") IN
